@@ -212,6 +212,25 @@ pub fn run(tier: &str, seed: u64, replay: Option<String>) -> i32 {
             });
         }
     }
+    // generated projects: a block pasted under another parent (the same name in two spaces /
+    // walls / floors)
+    for f in &files {
+        let lines = diskfault::split_lines(&f.text);
+        for b in diskfault::scan_blocks(&lines) {
+            if !matches!(b.btype.as_str(), "WINDOW" | "EXTERIOR-WALL" | "INTERIOR-WALL" | "UNDERGROUND-WALL" | "ROOF" | "SPACE") {
+                continue;
+            }
+            line_jobs.push(DJob {
+                file: f.rel.clone(),
+                edit: Edit::BlockPastedElsewhere { line: b.start },
+                cell: format!("{}|{}|block_pasted_elsewhere|{}", f.kind.as_str(), b.btype, if f.kind == FileKind::Ctehexml { f.rel.as_str() } else { "" }),
+                level: 1,
+                e2e: false,
+                closure: true,
+                cost: f.text.len(),
+            });
+        }
+    }
     // generated projects: the dormant features of one block switched on (every attribute that is
     // 0 gets the same positive value: both side fins and the overhang of a window, offsets, ...)
     for f in &files {
